@@ -34,6 +34,18 @@ def install(reg):
         return VBool(p.engine.is_pow2(p, p.as_int(x)))
     SF["is_pow2"] = s_is_pow2
 
+    def s_next_pow2(p, n):
+        """smallest power of two >= n (1 for n <= 1): uninterpreted, characterised by the same three facts next_power_2 is proved to satisfy"""
+        nt = p.as_int(n)
+        f = p.engine.uf("next_pow2", I, I)
+        t = f(nt)
+        key = ("next_pow2", z3.simplify(nt).sexpr())
+        if key not in p.ghost:
+            p.ghost[key] = True
+            p.assume(z3.Implies(nt >= 0, z3.And(p.engine.is_pow2(p, t), t >= nt, z3.Implies(nt >= 1, t < 2 * nt), z3.Implies(nt == 0, t == 1))))
+        return VInt(t)
+    SF["next_pow2"] = s_next_pow2
+
     def s_pow2(p, e):
         et = p.as_int(e)
         return VInt(p.engine.pow2_int(p, et))
@@ -365,6 +377,36 @@ def install_merkle_specs(reg):
             ph = pairhash_seq(p, X)
             p.assume(z3.Implies(z3.Length(X) > 1, t == f(ph)))
         return t
+
+    def zero_digests_seq(p, k):
+        """k all-zero 32-byte digests (the BEP 52 padding leaf), as the same rule-defined sequence the code's comprehension builds"""
+        z32 = const_bytes(bytes(32))
+        h = HList(rule=(z3.If(k > 0, k, 0), lambda i: VBytes(z32)))
+        p.alloc(h)
+        return p.list_seq(h)
+
+    def s_zero_digests(p, k):
+        return VBox(PV.PList(zero_digests_seq(p, p.as_int(k))))
+    SF["zero_digests"] = s_zero_digests
+
+    def s_repeat_digest(p, d, k):
+        """[d, d, ..., d] (k times)"""
+        dt = p.bytes_term(d)
+        kt = p.as_int(k)
+        h = HList(rule=(z3.If(kt > 0, kt, 0), lambda i: VBytes(dt)))
+        p.alloc(h)
+        return VBox(PV.PList(p.list_seq(h)))
+    SF["repeat_digest"] = s_repeat_digest
+
+    def s_cat(p, a, b):
+        """list concatenation as PV sequence"""
+        return VBox(PV.PList(z3.Concat(_seq(p, a), _seq(p, b))))
+    SF["cat"] = s_cat
+
+    def s_bytes_join(p, lst):
+        f = p.engine.uf("bytes_join", BYTES, PVSEQ, BYTES)
+        return VBytes(f(z3.Empty(BYTES), _seq(p, lst)))
+    SF["bytes_join"] = s_bytes_join
 
     def s_mroot(p, blocks):
         return VBytes(mroot_term(p, _seq(p, blocks)))
